@@ -99,6 +99,7 @@ def preset_case(r, kind, cplx):
 
 
 def correspondence(ctx):
+    pipeline.run_corpus(ctx, "C04", ["C04"])
     r = ctx.rng
     thorough = ctx.tier == "thorough"
     variants = ("real", "complex")
